@@ -73,6 +73,15 @@ Theorem scripts_leave_ver_alone :
 Proof. exact gen_frame. Qed.
 Print Assumptions scripts_leave_ver_alone.
 
+(* The oracle that checks/c18.py evaluates on the call logs observed from the real maintenance.Update
+   (scripts identified by the id of their classified content, stream = the one whose version was read
+   last) never rejects a log the model can produce, whatever the failures: a rejected observation is a
+   property violation or a model/implementation difference, not an artefact of the oracle. *)
+Theorem oracle_accepts_model_logs_scripts : forall (c : cfg) (runs : list (list outcome)),
+  omon_ok gen_sids (map (abs_event gen_sids) (snd (ch_multi c runs (db0 cat cat0)))) = true.
+Proof. exact gen_oracle_accepts. Qed.
+Print Assumptions oracle_accepts_model_logs_scripts.
+
 (* The premise of rerun_converges cannot be dropped: a RENAME TABLE without IF EXISTS of an object created
    earlier (the shape log.sql had before the fix) passes an undisturbed run, but after one failure between
    the RENAME and its version row every later start fails at the RENAME and the version stays behind. *)
